@@ -31,6 +31,7 @@ func (p PointStorage) Create(t *btapb.Table) bttest.Rows {
 func (p PointStorage) Open(t *btapb.Table) bttest.Rows {
 	return &pointRows{Rows: p.Storage.Open(t), iter: p.IterPoints, quiet: p.Quiet}
 }
+
 // DeleteTableMeta forwards the optional storage method the service looks for with a type assertion (the wrapper
 // would otherwise hide it and a deleted table would never be forgotten on disk).
 func (p PointStorage) DeleteTableMeta(t *btapb.Table) {
